@@ -35,6 +35,20 @@ FlowAlpha == {<<OP_0>>, <<OP_1>>, <<OP_IF>>, <<OP_NOTIF>>, <<OP_ELSE>>, <<OP_END
 
 SeqsUpTo(SS, n) == UNION {[1..k -> SS] : k \in 0..n}
 
+\* aliasing family (C08): an item is copied (or split), one copy transformed, every item compared
+AliasItems == {<<1, 0, 128>>, <<5, 0>>, <<255, 255, 0, 128>>, <<127>>, <<1, 2, 3>>, <<0, 0, 1, 0>>}
+Prov == {<<OP_DUP>>, <<OP_0, OP_PICK>>, <<OP_1, OP_PICK>>, <<OP_OVER>>, <<OP_TUCK>>, <<OP_2DUP>>, <<OP_IFDUP>>,
+         <<OP_DUP, OP_TOALTSTACK>>, <<OP_DUP, OP_SWAP>>, <<OP_2DUP, OP_2OVER>>, <<OP_DUP, OP_DUP, OP_ROT>>, <<OP_3DUP>>,
+         <<OP_1, OP_SPLIT>>, <<OP_1, OP_SPLIT, OP_SWAP>>, <<82, OP_SPLIT>>, <<OP_DUP, OP_0, OP_ROLL>>, <<OP_DUP, OP_1, OP_ROLL>>}
+Trans == {<<OP_1ADD>>, <<OP_1SUB>>, <<OP_NEGATE>>, <<OP_ABS>>, <<OP_NOT>>, <<OP_0NOTEQUAL>>, <<OP_INVERT>>, <<OP_BIN2NUM>>,
+          <<OP_1, OP_LSHIFT>>, <<OP_1 + 8, OP_RSHIFT>>, <<OP_1 + 7, OP_LSHIFT>>, <<OP_1, OP_RSHIFT>>, <<OP_0, OP_LSHIFT>>,
+          <<OP_1 + 5, OP_NUM2BIN>>, <<OP_1 + 3, OP_NUM2BIN>>, <<1, 7, OP_CAT>>, <<OP_1, OP_SPLIT>>, <<OP_SIZE>>,
+          <<OP_DUP, OP_AND>>, <<OP_DUP, OP_INVERT, OP_XOR>>, <<OP_DUP, OP_INVERT, OP_OR>>, <<OP_1, OP_ADD>>, <<82, OP_MUL>>,
+          <<82, OP_DIV>>, <<82, OP_MOD>>, <<OP_1NEGATE, OP_SUB>>, <<OP_DUP, OP_ADD>>, <<OP_1, OP_MAX>>, <<OP_1, OP_MIN>>,
+          <<OP_0, OP_BOOLOR>>}
+AliasProgs == {PushMin(<<9>>) \o PushMin(x) \o pv \o tr \o tl : x \in AliasItems, pv \in Prov, tr \in Trans,
+               tl \in {<<OP_NOP>>, <<OP_FROMALTSTACK>>, <<OP_SWAP, OP_1ADD>>}}
+
 \* lock-script bytes per family (the unlocking script is empty unless stated)
 Locks == CASE Family = "unary" -> {PushMin(a) \o <<op>> \o tail : a \in Edge, op \in UnaryOps, tail \in {<<>>, <<OP_ENDIF>>}}
            [] Family = "binary" -> {PushMin(a) \o PushMin(b) \o <<op>> : a \in Edge, b \in Edge, op \in BinaryOps}
@@ -43,28 +57,41 @@ Locks == CASE Family = "unary" -> {PushMin(a) \o <<op>> \o tail : a \in Edge, op
                                      x \in Blobs, n \in 0..74, op \in {OP_LSHIFT, OP_RSHIFT}}
            [] Family = "flow5" -> {Concat(s) \o <<OP_1>> : s \in SeqsUpTo(FlowAlpha, 5)}
            [] Family = "flow4" -> {Concat(s) \o <<OP_1>> : s \in SeqsUpTo(FlowAlpha, 4)}
+           [] Family = "alias" -> AliasProgs
            [] Family = "nonmin" -> {<<Len(a)>> \o a \o <<Len(b)>> \o b \o <<op>> : a \in Small \ {<<>>}, b \in Small \ {<<>>},
                                       op \in {OP_ADD, OP_EQUAL, OP_PICK, OP_SPLIT, OP_NUM2BIN, OP_LSHIFT}}
                                    \cup {<<OP_PUSHDATA1, Len(a)>> \o a \o <<op>> : a \in Small, op \in {OP_1ADD, OP_SIZE, OP_IF}}
 
+\* two-script programs: script switching, alt-stack scope, OP_RETURN early success, malformed tails
+UAlpha == {<<OP_1>>, <<OP_0>>, <<OP_TOALTSTACK>>, <<OP_RETURN>>, <<1, 2>>, <<OP_IF>>, <<OP_ENDIF>>, <<OP_DUP>>}
+LAlpha == {<<OP_FROMALTSTACK>>, <<OP_1>>, <<OP_DEPTH>>, <<OP_RETURN>>, <<OP_VERIF>>, <<OP_IF>>, <<OP_ENDIF>>, <<OP_ELSE>>, <<2, 7>>, <<OP_DROP>>}
+TwoLen == IF Family = "two3" THEN 3 ELSE 2
+Progs == IF Family \in {"two2", "two3"}
+         THEN {[u |-> Concat(a), l |-> Concat(b)] : a \in SeqsUpTo(UAlpha, TwoLen), b \in SeqsUpTo(LAlpha, TwoLen)}
+         ELSE {[u |-> <<>>, l |-> x] : x \in Locks}
+
 Flags(md, mi) == [p2sh |-> FALSE, nulldummy |-> FALSE, discourage |-> FALSE, cltv |-> TRUE, csv |-> TRUE, cleanstack |-> FALSE,
                   dersig |-> FALSE, lows |-> FALSE, minimaldata |-> md, nullfail |-> FALSE, sigpushonly |-> FALSE,
                   forkid |-> FALSE, strictenc |-> FALSE, minimalif |-> mi, bip143 |-> FALSE]
-Ctxs == {[genesis |-> g, f |-> Flags(md, mi), lt |-> <<0, 0, 0, 0>>, seq |-> <<255, 255, 255, 255>>, ver |-> <<1, 0, 0, 0>>] :
+TwoCtxs == {[genesis |-> g, f |-> [Flags(FALSE, FALSE) EXCEPT !.p2sh = pc[1], !.cleanstack = pc[2], !.sigpushonly = so],
+              lt |-> <<0, 0, 0, 0>>, seq |-> <<255, 255, 255, 255>>, ver |-> <<1, 0, 0, 0>>] :
+              g \in BOOLEAN, pc \in {<<FALSE, FALSE>>, <<TRUE, FALSE>>, <<TRUE, TRUE>>}, so \in BOOLEAN}
+Ctxs == IF Family \in {"two2", "two3"} THEN TwoCtxs ELSE
+        {[genesis |-> g, f |-> Flags(md, mi), lt |-> <<0, 0, 0, 0>>, seq |-> <<255, 255, 255, 255>>, ver |-> <<1, 0, 0, 0>>] :
            g \in BOOLEAN, md \in BOOLEAN, mi \in IF Family \in {"flow5", "flow4", "unary", "nonmin"} THEN BOOLEAN ELSE {FALSE}}
 
-VARIABLES lock, cx, vm, started
-vars == <<lock, cx, vm, started>>
+VARIABLES prog, cx, vm, started
+vars == <<prog, cx, vm, started>>
 
-Init == /\ lock \in Locks /\ cx \in Ctxs /\ vm = Begin(<<>>, lock, cx) /\ started = FALSE
+Init == /\ prog \in Progs /\ cx \in Ctxs /\ vm = Begin(prog.u, prog.l, cx) /\ started = FALSE
 Next == /\ vm.st = "run" /\ ~NeedsOracle(vm)
         /\ vm' = Step(vm, cx, NoOracle)
         /\ started' = TRUE
-        /\ UNCHANGED <<lock, cx>>
+        /\ UNCHANGED <<prog, cx>>
 Spec == Init /\ [][Next]_vars
 
 \* ---- properties ---------------------------------------------------------------------------------------
-Total == /\ vm.st \in {"run", "fin", "err", "unmodelled"}
+Total == /\ vm.st \in {"run", "fin", "err", "unmodelled", "toobig"}
          /\ vm.st \in {"fin", "err"} => Verdict(vm, cx) \in {"ok", "err"}
          /\ vm.st = "run" => (vm.pc >= 1 /\ vm.pc <= Len(vm.scripts[vm.sidx].toks))
 Terminates == [][Remaining(vm') < Remaining(vm)]_vars
@@ -75,6 +102,7 @@ NumericResultsMinimal == TRUE
 
 \* one case per program, emitted at its terminal state together with the specification's outcome
 EmitCase == (vm.st # "run" \/ NeedsOracle(vm)) =>
-               PrintT(ToJson([k |-> "case", lock |-> lock, genesis |-> cx.genesis, md |-> cx.f.minimaldata, mi |-> cx.f.minimalif,
+               PrintT(ToJson([k |-> "case", unlock |-> prog.u, lock |-> prog.l, genesis |-> cx.genesis, md |-> cx.f.minimaldata, mi |-> cx.f.minimalif,
+                              p2sh |-> cx.f.p2sh, cleanstack |-> cx.f.cleanstack, sigpushonly |-> cx.f.sigpushonly,
                               st |-> vm.st, verdict |-> Verdict(vm, cx)]))
 =================================================================================
